@@ -316,7 +316,12 @@ def components(draw, prof, min_schemas=1):
             un = draw(union_ir(profile(**{**prof, "object_inline": True}), names, 0))
             un.pop("nullable", None)
             un["_component_union"] = True
-            s = un if draw(st.booleans()) else {"k": "array", "items": un}
+            shape = draw(st.integers(0, 2))
+            if shape == 2 and len(names) > 1:
+                # a top-level array of a referenced component (the reference may be written through a wrapper by C17)
+                s = {"k": "array", "items": {"k": "ref", "name": draw(st.sampled_from([x for x in names if x != nm]))}}
+            else:
+                s = un if shape == 0 else {"k": "array", "items": un}
         elif r <= 5 or not prof["enum"]:
             s = draw(object_ir(prof, names, 1, min_props=0))
         elif r <= 7:
